@@ -91,6 +91,8 @@ let split_arrow (line : string) : string list * string list =
     | [] -> (List.rev acc, []) in
   go [] toks
 
+let err_eqb_none (o : obs) = (match o.o_err with ENone -> true | ETrap _ -> true | _ -> false)
+
 (* ---------- per-property judges ---------- *)
 let prop = ref "corr"
 let total = ref 0
@@ -109,6 +111,20 @@ let report line codes =
 
 let judge_arith (lhs : string list) (rhs : string list) (line : string) =
   match lhs, rhs with
+  | [_; opn; p; emax; emin; traps; rnd; x; _; _; _; _], [d; cnd; er; extra; xpost; ypost; ctxsame]
+    when opn = "Sqrt" || opn = "Cbrt" ->
+    let c = mkCtx (z_of_dec_string p) (z_of_dec_string emax) (z_of_dec_string emin)
+              (cond_of_Z (z_of_dec_string traps)) (rounder_of_token rnd) in
+    let craw = z_of_dec_string cnd in
+    let o = mkObs (dec_req d) (cond_of_Z craw) craw (err_of_token er) (z_of_dec_string extra)
+              (dec_of_token xpost) (dec_of_token ypost) (ctxsame = "1") in
+    bump opcount opn;
+    if cnd <> "0" then Hashtbl.replace nontrivial (String.concat " " lhs) ();
+    let xd = dec_req x in
+    let k = mkCase ORound c xd xd Z0 ANone xd in      (* for the fit oracle only *)
+    report line ((if opn = "Sqrt" then oracle_sqrt c xd o else oracle_cbrt c xd o)
+                 @ (if is_finite o.o_dec && err_eqb_none o then oracle_c07 k o else [])
+                 @ (match xpost with "_" -> [] | t -> if t = x then [] else [z_of_int 7]))
   | [_; opn; p; emax; emin; traps; rnd; x; y; e; al; dpre], [d; cnd; er; extra; xpost; ypost; ctxsame] ->
     let c = mkCtx (z_of_dec_string p) (z_of_dec_string emax) (z_of_dec_string emin)
               (cond_of_Z (z_of_dec_string traps)) (rounder_of_token rnd) in
